@@ -41,6 +41,19 @@ var tkPool = []string{
 	"a /* c */ b", " /**/ ", " # c\n x", "a // c\n b", "/*a*/ /*b*/", " /*a*/\t/*b*/ ",
 	"{{'}}'x}}y", "{{a 😀 b}}c", "{{\"}}}\"}}", "a😀{{b}}", "{{#a}}'{{'{{/a}}", "{{a}}😀{{b}}",
 	"a + b*c", "f(x, y)", "a<=b<>c", "x IS NOT NULL", "a[1]", "1+-2", "a.b", "a-b", "a - -1", "1/2", "1/*c*/2", "a'b'c", "é'ж'😀", "😀", "a😀b", "\x00", "a\x00b", "ÿĀ",
+	// the conventional escape character, also at the very end of an unterminated literal
+	"\\", "a\\b", "'a\\", "\"\\", "'a\\'b'", "'\\'", "{{ 'a\\", "{{\"\\\"}}", "\\n",
+	// the last configurable characters and the first beyond them
+	"\ufffe", "\uffff", "a\uffffb", "\ufffd",
+}
+
+// characters whose low 8 or low 16 bits equal a significant ASCII character: an implementation that narrows a
+// character before classifying or storing it replaces them by that character
+func init() {
+	for _, c := range "<>=!{}'\"/*#,.-+1a \n\r" {
+		hi8, hi16 := string(rune(0x100+c)), string(rune(0x10000+c))
+		tkPool = append(tkPool, hi8, hi16, "<"+hi8, "a"+hi16+"b")
+	}
 }
 
 type tkSpan struct {
